@@ -23,3 +23,21 @@ package cipher
 //@   property C08 C09
 //@   requires 0 <= unixnano(t) && unixnano(t) < 4611686018427387904
 //@   ensures mathint(r) == slotOf(unixnano(t))
+//@
+//@ // TCP nonce progression (docs/protocol.md): "with each encryption operation the
+//@ // nonce value will increase by 1" - the whole nonce as one big-endian integer:
+//@ // byte j is incremented exactly when every lower-order byte was 0xff.
+//@ func (c *aeadBlockCipher) increaseNonce()
+//@   property C09 C01
+//@   mode int
+//@   requires c != nil
+//@   requires c.enableImplicitNonce && len(c.implicitNonce) > 0
+//@   modifies c.implicitNonce[..]
+//@   ensures len(c.implicitNonce) == old(len(c.implicitNonce))
+//@   ensures forall(j, 0, len(c.implicitNonce), forall(t, j + 1, len(c.implicitNonce), old(c.implicitNonce[t]) == 255) ==> c.implicitNonce[j] == old(c.implicitNonce[j]) + 1)
+//@   ensures forall(j, 0, len(c.implicitNonce), exists(t, j + 1, len(c.implicitNonce), old(c.implicitNonce[t]) != 255) ==> c.implicitNonce[j] == old(c.implicitNonce[j]))
+//@   loop 1:
+//@     modifies c.implicitNonce[..]
+//@     invariant -1 <= rangeindex && rangeindex < len(c.implicitNonce)
+//@     invariant forall(t, len(c.implicitNonce) - 1 - rangeindex, len(c.implicitNonce), old(c.implicitNonce[t]) == 255 && c.implicitNonce[t] == 0)
+//@     invariant forall(t, 0, len(c.implicitNonce) - 1 - rangeindex, c.implicitNonce[t] == old(c.implicitNonce[t]))
